@@ -13,7 +13,7 @@ PROP_ID = "C04"
 LEVEL = "exploration"
 RULE = (
     "cases: (a) every ordered tree shape up to 7 (quick) / 10 (thorough) nodes, every node checked, commonancestors on all "
-    "pairs and (<= 6 nodes) all triples plus 0/1/repeated arguments; (b) Hypothesis trees up to 60 nodes; (c) mutation "
+    "pairs and (<= 6 nodes) all triples plus 0/1/repeated arguments and 5-12 arguments with one odd node out; (b) Hypothesis trees up to 60 nodes; (c) mutation "
     "histories (parent/children assignments and deletions on up to 8 nodes) with all attributes re-checked after every step; (d) chains of 700-3000 nodes (upward-looking attributes) and nodes with 300-2000 children. "
     "Node classes: all of vf/nodes.py (Node, AnyNode, user NodeMixin/LightNodeMixin classes, classes with own __eq__/__bool__/__len__/container behaviour, "
     "SymlinkNode with targets in another tree or - class SelfLinks - in the same tree; for a link the target, the target's root and the link again "
@@ -143,6 +143,20 @@ def check_all(tree, labels, acc, triples):
     if triples:
         for a, b, c in itertools.product(tree, repeat=3):
             check_common([a, b, c], labels)
+    # longer argument lists (round 16: a pairwise reduction that loses one chain when the count becomes odd): one node
+    # that differs from all the others, at the front, in the middle and at the end of 4 to 14 arguments
+    nodes = list(tree)
+    if nodes:
+        deepest = max(nodes, key=lambda n: len(ref_common([n])))
+        for a in nodes:
+            for b in (deepest,):
+                if a is b:
+                    continue
+                for k in (5, 6, 7, 10, 12):
+                    for pos in (0, k // 2, k - 1):
+                        args = [b] * k
+                        args[pos] = a
+                        check_common(args, labels)
     return nontrivial
 
 
